@@ -67,6 +67,10 @@ Proof. exact transform_rule_natural. Qed.
 Require Import String Symbols SymbolsProofs.
 Theorem C06_variables_in_formulas_denote_their_bindings : forall s : sym, wfs s = true -> create_symbol (encode s) = Some s.
 Proof. exact create_symbol_undoes_the_encoding. Qed.
+(* and two different symbols never stand for the same atom: the atoms p(X) for two bindings of X are looked up apart *)
+Theorem C06_different_bindings_denote_different_atoms : forall s1 s2 : sym, wfs s1 = true -> wfs s2 = true ->
+  create_symbol (encode s1) = create_symbol (encode s2) -> s1 = s2.
+Proof. exact distinct_symbols_stay_distinct. Qed.
 Theorem C06_strings_keep_their_text : forall s : string, unquote (quote s) = s.
 Proof. exact unquote_quote. Qed.
 (* a ground term written as the argument of an atom - numbers, strings, constants, function terms, tuples, unary minus, + and -, nested - reaches
@@ -79,6 +83,7 @@ Proof. intros sg w W. exact (proj1 (head_and_body_read_arguments_alike sg w W)).
 Print Assumptions C06_head_and_body_formulas_read_atom_arguments_alike.
 Print Assumptions C06_variables_in_formulas_denote_their_bindings.
 Print Assumptions C06_strings_keep_their_text.
+Print Assumptions C06_different_bindings_denote_different_atoms.
 Print Assumptions C06_transformer_commutes_with_instantiation.
 Print Assumptions C06_rewrite_commutes_with_instantiation.
 Print Assumptions C06_elements_mean_conjunction_of_implications.
